@@ -314,7 +314,7 @@ METHODS = ("truncate", "split_at", "split_at_mut", "split_off", "drain", "remove
            "from_utf8_unchecked", "unwrap_unchecked", "get_unchecked", "unwrap_err", "expect_err", "step_by", "chunks", "windows",
            "chunks_exact", "rotate_left", "rotate_right", "swap", "split_to", "advance", "slice", "copy_within",
            "select_nth_unstable", "block_on", "unreachable_unchecked", "from_raw_parts", "split_first_chunk", "as_chunks",
-           "rchunks", "chunk_by", "repeat", "with_capacity", "reserve_exact", "resize", "extend_from_within", "borrow_mut", "borrow")
+           "rchunks", "chunk_by")
 # of these, only the ones that take an offset/index/constant that can be wrong matter; `insert`
 # and `remove` also name HashMap/HeaderMap methods (no panic) -- the table classifies each.
 NUM = re.compile(r"^[0-9][0-9a-zA-Z_\.]*$")
@@ -449,30 +449,88 @@ def load_table():
     return json.load(open(TABLE))
 
 
+RUST_KEEP = {"self", "Self", "super", "crate", "true", "false", "as", "mut", "ref", "move", "async", "await", "match", "if", "else",
+             "let", "return", "Some", "None", "Ok", "Err", "u8", "u16", "u32", "u64", "u128", "usize", "i8", "i16", "i32", "i64",
+             "i128", "isize", "f32", "f64", "bool", "str", "String", "Vec"}
+MAPLIKE = ("insert", "remove")      # HashMap/HashSet/HeaderMap/aya-map operations (class no-panic)
+
+
+def shape_of(kind, expr):
+    """the expression up to renaming of local identifiers: variable / constant names become `ID`;
+    method, function, macro and field names, path segments, literals' presence and the operator
+    structure stay.  `[0..x]` and `[..x]` are the same slice."""
+    s = re.sub(r'"[^"]*"', '"S"', expr)
+    out, pos = [], 0
+    for m in re.finditer(r"[A-Za-z_][A-Za-z0-9_]*", s):
+        a, b = m.span()
+        out.append(s[pos:a])
+        w = m.group(0)
+        before = s[a - 1] if a > 0 else ""
+        before2 = s[a - 2:a]
+        after = s[b:b + 2]
+        keep = (w in RUST_KEEP or after[:1] in ("(", "!") or (before == "." and before2 != "..") or before2 == "::" or after == "::"
+                or (before.isdigit()))       # literal suffix such as 0u8
+        out.append(w if keep else "ID")
+        pos = b
+    out.append(s[pos:])
+    sh = "".join(out).replace("[0..", "[..")
+    if kind == "method":
+        mm = re.search(r"(?:\.|::)(%s)\(" % "|".join(MAPLIKE), sh)
+        if mm:
+            # map-like operations: receiver and argument spelling are irrelevant
+            return "MAP." + mm.group(1)
+    return sh
+
+
 def compare(repo=None):
-    """-> dict(total, groups, classified, unclassified=[...], grown=[...], stale=[...], by_class={...}, modelled={site: [rows]})"""
+    """Match the sites found in the sources against the committed table.
+    1. exact key (file, fn, kind, expression);  2. same file + kind + SHAPE (expression up to renaming
+    of local identifiers, any enclosing function: a classified site that moved into a helper, was
+    renamed or had its locals renamed);  3. otherwise the site is NEW (undischarged).
+    A shape may not occur more often than the table allows (rows of form cur / fixed are alternatives)."""
     g = grouped(scan_repo(repo))
     table = load_table()
     rows = {}
+    by_shape = {}
     for r in table.get("rows", []):
-        rows[(r["file"], r["fn"], r["kind"], r["expr"])] = r
-    unclassified, grown, by_class, modelled_present = [], [], {}, {}
-    for k, e in sorted(g.items()):
-        r = rows.get(k)
-        if r is None or r.get("class", "TODO") == "TODO":
-            unclassified.append(e)
+        if r.get("class", "TODO") == "TODO":
             continue
-        if e["n"] > r.get("n", 1):
-            grown.append(dict(e, table_n=r.get("n", 1)))
+        rows[(r["file"], r["fn"], r["kind"], r["expr"])] = r
+        by_shape.setdefault((r["file"], r["kind"], shape_of(r["kind"], r["expr"])), []).append(r)
+    unclassified, moved, by_class, modelled_present = [], [], {}, {}
+    used = {}
+    for k, e in sorted(g.items()):
+        sk = (e["file"], e["kind"], shape_of(e["kind"], e["expr"]))
+        r = rows.get(k)
+        how = "exact"
+        if r is None and sk in by_shape:
+            r = by_shape[sk][0]
+            how = "shape"
+        if r is None:
+            unclassified.append(dict(e, shape=sk[2]))
+            continue
+        used[sk] = used.get(sk, 0) + e["n"]
+        if how == "shape":
+            moved.append(dict(e, shape=sk[2], as_row={"fn": r["fn"], "expr": r["expr"], "class": r["class"]}))
         c = r["class"].split(":")[0].strip()
         by_class[c] = by_class.get(c, 0) + e["n"]
-        if r["class"].startswith("modelled"):
-            site = r.get("site", "?")
-            modelled_present.setdefault(site, []).append(e)
+        if how == "exact" and r["class"].startswith("modelled"):
+            modelled_present.setdefault(r.get("site", "?"), []).append(e)
+    grown = []
+    for sk, n_src in sorted(used.items()):
+        rs = by_shape.get(sk, [])
+        plain = sum(r.get("n", 1) for r in rs if r.get("form") in (None, "any"))
+        cur = sum(r.get("n", 1) for r in rs if r.get("form") == "cur")
+        fixed = sum(r.get("n", 1) for r in rs if r.get("form") == "fixed")
+        allowed = plain + max(cur, fixed)
+        if sk[2].startswith("MAP."):
+            continue
+        if n_src > allowed:
+            grown.append({"file": sk[0], "fn": "*", "kind": sk[1], "expr": sk[2], "n": n_src, "table_n": allowed, "lines": []})
     stale = [r for k, r in sorted(rows.items()) if k not in g]
     return {"total": sum(e["n"] for e in g.values()), "groups": len(g),
-            "classified": sum(e["n"] for k, e in g.items() if k in rows and rows[k].get("class", "TODO") != "TODO"),
-            "unclassified": unclassified, "grown": grown, "stale": stale, "by_class": by_class,
+            "classified": sum(used.values()),
+            "unclassified": unclassified, "grown": grown, "moved": moved, "stale": stale, "by_class": by_class,
             "modelled_present": modelled_present}
 
 
@@ -492,6 +550,8 @@ def main():
         res["total"], res["groups"], res["classified"], json.dumps(res["by_class"], sort_keys=True)))
     for e in res["unclassified"]:
         print("UNCLASSIFIED %s fn %s [%s] %s (lines %s)" % (e["file"], e["fn"], e["kind"], e["expr"], e["lines"]))
+    for e in res["moved"]:
+        print("moved/renamed (accepted by shape %s): %s fn %s [%s] %s  ~ classified as %s" % (e["shape"], e["file"], e["fn"], e["kind"], e["expr"], e["as_row"]["class"]))
     for e in res["grown"]:
         print("NEW-OCCURRENCE %s fn %s [%s] %s: %d in the sources, %d classified" % (e["file"], e["fn"], e["kind"], e["expr"], e["n"], e["table_n"]))
     for r in res["stale"]:
